@@ -214,17 +214,24 @@ Theorem C17_frombase_exact : forall base sg cs, 2 <= base <= 36 -> sign_ok sg ->
 Proof. exact frombase_correct. Qed.
 Print Assumptions C17_frombase_exact.
 
-(* exactly which strings frombase accepts (strings without white space; with white space the short-string path
-   goes through the VM's tonumber, which skips it: correspondence only): core_ok = optional sign then one or more
-   alphanumeric digits below the base; everything else - a digit at or above the base, an inner sign, an empty
-   digit part, any other character - is nil *)
-Theorem C17_frombase_accepts : forall base s, 2 <= base <= 36 -> no_space s ->
+(* exactly which strings frombase accepts, for EVERY string: core_ok = optional sign then one or more alphanumeric digits
+   below the base; everything else - white space anywhere, a digit at or above the base, an inner sign, an empty digit
+   part, any other character - is nil, on the short (tonumber) path and on the chunked path alike.  Proved from the
+   scraped fact frombase_short_guarded = true (the fast path is taken only for ^[+-]?%w+$, /repo 4105672). *)
+Theorem C17_frombase_accepts : forall base s, 2 <= base <= 36 ->
   (core_ok base s = true ->
      exists sg cs x, s = sg ++ cs /\ sign_ok sg /\ cs <> [] /\ Forall (char_ok base) cs /\
        frombase s base = Ok x /\ wf x /\ uval x = (sign_val sg * dval base (map cval cs)) mod 2 ^ BINT_BITS) /\
   (core_ok base s = false -> frombase s base = Err ENone).
 Proof. exact frombase_accepts. Qed.
 Print Assumptions C17_frombase_accepts.
+
+(* the guard is needed: the same code with frombase_short_guarded = false (every short string goes to tonumber, the code
+   before the repair) accepts " 1" *)
+Theorem C17_frombase_guard_needed :
+  ~ (forall base s, 2 <= base <= 36 -> core_ok base s = false -> frombase_pol false s base = Err ENone).
+Proof. exact frombase_guard_needed. Qed.
+Print Assumptions C17_frombase_guard_needed.
 
 Theorem C17_text_badbase : forall x s base uo, ~ (2 <= base <= 36) ->
   tobase x base uo = Err ENone /\ frombase s base = Err ENone.
@@ -429,24 +436,13 @@ Proof.
 Qed.
 Print Assumptions C17_objects_pow_scalar.
 
-(* ---- white space in frombase: what each of the two paths accepts, exactly, as the code behaves.
-   spaces l: every character is one of " \f\n\r\t\v".  The short path (fewer than `step` characters) is the VM's
-   tonumber(s, base) and accepts surrounding white space; the chunked path refuses any.  The two disagree on the same
-   numeral (known finding, six designated witnesses; repair proposed in harness/C17/proposed_repairs). ---- *)
-Theorem C17_frombase_domain : forall base, 2 <= base <= 36 ->
-  exists step : nat, (1 <= step <= 64)%nat /\ base ^ Z.of_nat step <= maxint /\
-    (forall s, (length s < step)%nat ->
-       ((exists l sg cs r, s = l ++ sg ++ cs ++ r /\ spaces l /\ spaces r /\ sign_ok sg /\ cs <> [] /\ Forall (char_ok base) cs)
-        <-> exists x, frombase s base = Ok x)) /\
-    (forall s, (step <= length s)%nat ->
-       ((exists sg cs, s = sg ++ cs /\ sign_ok sg /\ cs <> [] /\ Forall (char_ok base) cs) <-> exists x, frombase s base = Ok x)).
-Proof. exact frombase_domain. Qed.
-Print Assumptions C17_frombase_domain.
-
-Theorem C17_frombase_space_uniform_refuted : ~ (forall base s z, 2 <= base <= 36 -> spaces [z] ->
-  (exists x, frombase (z :: s) base = Ok x) -> forall k, exists x, frombase (z :: repeat 48 k ++ s) base = Ok x).
-Proof. exact frombase_space_uniform_refuted. Qed.
-Print Assumptions C17_frombase_space_uniform_refuted.
+(* ---- frombase, accepted set as a shape: optional sign followed by digits of the base, and nothing else; in
+   particular a string containing white space is nil whatever its length ---- *)
+Theorem C17_frombase_uniform : forall base, 2 <= base <= 36 ->
+  (forall s, (exists sg cs, s = sg ++ cs /\ sign_ok sg /\ cs <> [] /\ Forall (char_ok base) cs) <-> exists x, frombase s base = Ok x) /\
+  (forall s c, In c s -> is_space c = true -> frombase s base = Err ENone).
+Proof. exact (fun base H => conj (frombase_uniform base H) (fun s c => frombase_no_space base s c H)). Qed.
+Print Assumptions C17_frombase_uniform.
 
 (* ---- bn.from from the literal TEXT.  split_lit is the total function of the two lpegrex patterns (binpatt,
    hexpatt) from the text to the captures (neg, int, frac, exp); it is corresponded against the real patterns. ---- *)
